@@ -29,8 +29,8 @@ type hostCase struct {
 var hostNames = map[string]string{"n1": "example.org", "n2": "a.example.org", "n3": "ads.test.com", "n4": "x-y.example.net"}
 var hostAddrs = map[string][]string{"v4": {"0.0.0.0", "127.0.0.1", "192.168.1.1"}, "v6": {"::1", "2001:db8::1", "::"}, "mapped": {"::ffff:1.2.3.4"}}
 var hostSeps = map[string][]string{"sp": {" "}, "tab": {"\t"}, "mixed": {" \t  ", "\t\t "}}
-var hostComments = map[string][]string{"none": {""}, "blank_hash_text": {" #note", "\t# note"}, "hash_text": {"#note", "#n"},
-	"blank_hashhash_text": {" ## phishing"}, "blank_hash_words": {" # a b 1.2.3.4 evil.org"}, "hash_only": {"#"}, "blank_hash_only": {" #", "  #"}}
+var hostComments = map[string][]string{"none": {""}, "blank_hash_text": {" #note", "\t# note", " \t# note", "\t\t#note", "  \t #n"}, "hash_text": {"#note", "#n"},
+	"blank_hashhash_text": {" ## phishing"}, "blank_hash_words": {" # a b 1.2.3.4 evil.org"}, "hash_only": {"#"}, "blank_hash_only": {" #", "  #", " \t#", "\t\t#"}}
 
 func addrClass(ip string) string {
 	switch {
